@@ -53,6 +53,8 @@ FIXED = [
     (['C02'], 'died/xml/assert (end iterator)', 'end iterator was dereferenced', 'XML array with fewer items than std::tuple/std::array target: mValueIt->end() on the end iterator (pugixml assertion / UB)'),
     (['C02', 'C07'], 'crash/corrupt/asan:requested allocation / hang', 'preallocated with the size declared in the input', 'MsgPack DD DE 00 00 00 (array32 of 3.7e9 items) into std::deque<std::string>: minutes of CPU / allocation-size-too-big'),
     (['C13'], 'detect one-character text', 'consists of one UTF-16/UTF-32 character', 'BOM-less UTF-32 text of one character detected as UTF-16 (i + 4 < size)'),
+    (['C03'], 'csv/exception/*Missing starting double-quotes* | csv/value/stream', 'quoted value when it was read repeatedly', 'CSV stream reader: a quoted cell ("116836", or one containing "") requested twice by key failed with "Missing starting double-quotes" or lost characters, because the in-place unescaping was applied again to the already unescaped bytes'),
+    (['C03', 'C07'], 'msgpack/tail|value|exception after a partially read array', 'array and binary scopes left unread items', 'MsgPack: an array (or bin) member of which the object read fewer elements than stored (e.g. 0 of 4) left the reader inside the array; the next keyed request failed ("Unsupported key type" / false) and the data after the object was misread'),
 ]
 
 KNOWN = [
